@@ -121,6 +121,8 @@ def check_gamma(ctx, case, continuum, dissim, sampler, res, gt):
     prec = case["precision"]
     if isinstance(prec, str):
         prec = pc.PRECISION_LEVEL[prec]
+    elif prec is not None and (case.get("arg_types") or {}).get("precision") == "float32":
+        prec = float(np.float32(prec))
     detail = {"n_samples": n, "precision": case["precision"], "chance_alignments": len(chance), "draws": len(handed)}
     if res.n_samples != len(chance):
         ctx.fail("n_samples-property-differs-from-chance-alignments", detail, monitor="M-GAMMA-COUNT")
@@ -217,9 +219,15 @@ def run_gamma(case, continuum, dissim, precision):
     sampler = counting_sampler(case["sampler"])
     gt = case.get("ground_truth")
     np.random.seed(case["np_seed"])
+    # argument-type variants the API accepts: numpy scalars for the precision, None / 0 / 1 / numpy bools for the switches
+    at = case.get("arg_types") or {}
+    if precision is not None and not isinstance(precision, str):
+        precision = {"float32": np.float32, "float64": np.float64}.get(at.get("precision"), float)(precision)
+    off = {"none": None, "zero": 0, "npbool": np.bool_(False)}.get(at.get("off"), False)
+    on = {"one": 1, "npbool": np.bool_(True)}.get(at.get("on"), True)
     res = continuum.compute_gamma(dissim, n_samples=case["n_samples"], precision_level=precision,
                                   ground_truth_annotators=None if gt is None else list(gt), sampler=sampler,
-                                  fast=case["mode"] == "fast", soft=case["mode"] == "soft")
+                                  fast=on if case["mode"] == "fast" else off, soft=on if case["mode"] == "soft" else off)
     return res, sampler
 
 
@@ -376,6 +384,8 @@ def gen_case(ctx, dspecs):
             "np_seed": rng.randrange(2 ** 31), "identical": identical}
     if target:
         case["target_N"] = target
+    case["arg_types"] = {"precision": rng.choice(["float", "float", "float64", "float32"]),
+                         "off": rng.choice(["false", "false", "none", "zero", "npbool"]), "on": rng.choice(["true", "true", "one", "npbool"])}
     if n >= 3 and rng.random() < 0.35:
         # session: the same sampler and continuum objects serve several computations
         calls = []
